@@ -129,19 +129,23 @@ def exits_cases(rng, n, kind):
 
     class S(Strategy):
         def should_long(self): return False
-        def go_long(self): self.buy = (4.0, 100.0)
+        def go_long(self):
+            # a single entry row, or a scaled entry whose planned average price (95) differs from the price of the first fill (100)
+            self.buy = (4.0, 100.0) if not pend.get('scaled') else [(2.0, 100.0), (2.0, 90.0)]
         def on_open_position(self, order):
             if 'open' in pend: setattr(self, kind, pend.pop('open'))
         def on_close_position(self, order):
             if 'close' in pend: setattr(self, kind, pend.pop('close'))
-    lo = [80.0, 84.0, 88.0, 92.0, 95.0] if kind == 'stop_loss' else [105.0, 108.0, 112.0, 116.0, 120.0]
+    lo = [80.0, 84.0, 88.0, 92.0, 95.0, 97.0] if kind == 'stop_loss' else [105.0, 108.0, 112.0, 116.0, 120.0]
     tag = 'stop-loss' if kind == 'stop_loss' else 'take-profit'
     out = []
 
     def rnd_decl():
         k = rng.choice([1, 1, 2, 3])
         return [(rng.choice([0.5, 1.0, 0.25]), rng.choice(lo)) for _ in range(k)]
-    for _ in range(n):
+    for case_no in range(n):
+        pend.clear()
+        pend['scaled'] = case_no % 2 == 1
         driver.session('futures', leverage=10, balance=1e9, strategy_cls=S)
         st = router.routes[0].strategy
         p = driver.position('BTC-USDT')
